@@ -283,7 +283,7 @@ function familyH (tier, opts = {}) {
 }
 
 // Q: Function.prototype forms. <holder>.<method>.<call|apply>(args), args = every sequence of <= N argument forms
-const Q_ARGS = ['a', "'lit'", 'f()', '...arr', '[b, f()]', '[]', 'undefined', 'null', '[...arr, b]']
+const Q_ARGS = ['a', "'lit'", 'f()', '...arr', '[b, f()]', '[]', 'undefined', 'null', '[...arr, b]', 's.trim()', 'a + f()']
 function familyQ (tier, opts = {}) {
   const N = tier === 'thorough' ? 3 : 2
   // (a holder that is a logged spy, `o.concat`, is left out: reading a static path after the this argument is the
@@ -300,7 +300,10 @@ function familyQ (tier, opts = {}) {
   for (const l of r.leaves) {
     const args = []
     for (let i = 0; i < last; i++) if (l.pick['a' + i] !== null && l.pick['a' + i] !== undefined) args.push(l.pick['a' + i])
-    leaves.push(mkLeaf('Q', { op: `${l.pick.holder}.${l.pick.method}.${l.pick.fn}(${args.join(', ')})`, opkind: 'proto' }))
+    const op = `${l.pick.holder}.${l.pick.method}.${l.pick.fn}(${args.join(', ')})`
+    leaves.push(mkLeaf('Q', { op, opkind: 'proto' }))
+    // with an argument that is itself instrumented: also in the positions where the call is the ROOT of its statement
+    if (args.some((x) => x === 's.trim()' || x === 'a + f()')) for (const st of ['stmt', 'return', 'const', 'if_test']) leaves.push(mkLeaf('Q', { op, opkind: 'proto', stmtctx: st }))
   }
   return { leaves, stats: addStats(stats, r.stats) }
 }
